@@ -66,11 +66,10 @@ Definition add_obj (h : heap) (o : hobj) : heap :=
 (* Qube.as_readonly on object i (non-recursive part; these objects carry no derivatives) *)
 Definition freeze (h : heap) (i : nat) : heap :=
   let o := nth i (objs h) dflt_obj in
-  if oro o then h
-  else
-    let h1 := set_awr h (ovals o) false in
-    let h2 := match omask o with Some m => set_awr h1 m false | None => h1 end in
-    set_obj h2 i (mkh (ovals o) (omask o) (omb o) true (ounits o) (olast o)).
+  (* the arrays are frozen even when the object is already flagged read-only *)
+  let h1 := set_awr h (ovals o) false in
+  let h2 := match omask o with Some m => set_awr h1 m false | None => h1 end in
+  set_obj h2 i (mkh (ovals o) (omask o) (omb o) true (ounits o) (olast o)).
 
 (* a new array viewing positions [sel] of array a; NumPy: a view of a read-only array is read-only *)
 Definition view (h : heap) (a : nat) (sel : list nat) : heap * nat :=
